@@ -54,6 +54,10 @@ Check(t) ==
                                     /\ PointClause(e, Q(t.sets[j].pts[i]), t.sets[j].normals[i]) # "skip"})
          IN IF \E j \in DOMAIN t.sets : t.sets[j].exc = "" /\ t.sets[j].nexc # "" THEN <<"normal-failed:" \o t.sets[CHOOSE j \in DOMAIN t.sets : t.sets[j].exc = "" /\ t.sets[j].nexc # ""].nexc, "", nj>>
             ELSE IF \E j \in DOMAIN t.sets : t.sets[j].exc = "" /\ ~t.sets[j].shape_ok THEN <<"one-normal-per-point", "", nj>>
+            \* the 4096 times smaller copy: the squared length at 1/4096 is within 0.4 % of 1 (the coarser test above allows 2.3 %)
+            ELSE IF \E j \in DOMAIN t.sets : "len2_4096" \in DOMAIN t.sets[j] /\ t.sets[j].exc = "" /\ t.sets[j].nexc = ""
+                       /\ \E i \in DOMAIN t.sets[j].len2_4096 : LET d == t.sets[j].len2_4096[i] - 16777216 IN d > 67108 \/ d < -67108
+                 THEN <<"normal-not-unit(tiny shape)", "", nj>>
             ELSE IF bad # {} THEN LET b == CHOOSE b \in bad : TRUE IN
                  <<PointClause(e, Q(t.sets[b[1]].pts[b[2]]), t.sets[b[1]].normals[b[2]]) \o "@set" \o ToString(b[1]) \o "/point" \o ToString(b[2]), "", nj>>
             ELSE <<"ok", "", nj>>
